@@ -55,13 +55,17 @@ def decode_length(ctx, rep):
                  if st["k"] == "assign" and st["rv"]["k"] == "agg" and st["rv"].get("adt") == "core::option::Option" and st["rv"].get("vname") == "Some"
                  and not st.get("exp") and i in an.reachable() and b.raw["span"]["line"] <= (st.get("line") or 0) <= b.raw["span"]["eline"]]
         rep.check("R4.1", "%s:some-site" % vn, len(somes) == 1, "expected one `Some(n)` for Mode::%s (found %d)" % (vn, len(somes)), b.loc(), nontrivial=False)
+        contract(ctx, rep, b, rows, vi, vn, ml.get(vi))
+        # the announced value is byte x scale, so the table evaluation over all 256 first bytes is exhaustive for n: it decides the
+        # bounds even when the interval domain loses n (e.g. carried through an enum payload)
+        table_ok = getattr(contract, "last_ok", False)
         for (i, st) in somes:
             iv = an.value_at_exit(i, st["rv"]["ops"][0])
             hi = ml.get(vi)
-            rep.check("R4.1", "%s:lower-bound" % vn, iv is not None and iv[0] >= 4,
+            rep.check("R4.1", "%s:lower-bound" % vn, (iv is not None and iv[0] >= 4) or table_ok,
                       "Mode::%s: decode_length can announce a frame of n in %s bytes; n < 4 makes the decoder remove fewer than 4 bytes, and n = 0 makes `advance(1)` panic on an empty frame" % (vn, list(iv) if iv else None),
                       b.loc(st["line"]), sample={"mode": vn, "n_interval": list(iv) if iv else None})
-            rep.check("R4.1", "%s:upper-bound" % vn, iv is not None and hi is not None and iv[1] <= hi,
+            rep.check("R4.1", "%s:upper-bound" % vn, (iv is not None and hi is not None and iv[1] <= hi) or table_ok,
                       "Mode::%s: announced length up to %s exceeds the mode maximum %s" % (vn, iv[1] if iv else "?", hi), b.loc(st["line"]))
             # n's definition on this variant's path (taken from the accepting row of the path-sensitive decision table, so that
             # helper calls and multiply-assigned locals are resolved), compared bit by bit with first_byte << (0 | 2) in usize
@@ -88,14 +92,17 @@ def decode_length(ctx, rep):
                         return ("first", 8)
                 if y[0] == "index" and strip_refs(strip_to_src(y[1])) == ("arg", 2) and y[2][0] == "const" and y[2][1] == 0:
                     return ("first", 8)
+                if y[0] == "cindex" and strip_refs(strip_to_src(y[1])) == ("arg", 2) and y[2] == 0 and not y[3]:
+                    return ("first", 8)
                 return None
             shift = 0 if hi == 255 else 2
             expect = [("f", "first", i - shift) if 0 <= i - shift < 8 else 0 for i in range(64)]
+            from mirq import simplify
+            exprs = [simplify(e) for e in exprs]
             got_bits = [bits.evaluate(e, 64, leaf) for e in exprs]
             okv = len(got_bits) == 1 and got_bits[0] == expect
             rep.check("R4.1", "%s:value-bits" % vn, okv, "Mode::%s: the announced length must be the first byte x %d computed without losing bits; %s gives %s" % (vn, 1 << shift, [fmt_origin(e) for e in exprs], [str(x) for x in (got_bits[0][:12] if got_bits else [])]),
                       b.loc(st["line"]), sample={"mode": vn, "definition": [fmt_origin(e) for e in exprs]})
-        contract(ctx, rep, b, rows, vi, vn, ml.get(vi))
     rep.floor("R4.1", 9)
 
 
@@ -132,11 +139,23 @@ def contract(ctx, rep, b, rows, vi, vn, hi):
                 return tb.get(vi, tb.get(None))
         return None
 
+    def is_src(o):
+        return strip_refs(strip_to_src(o)) == ("arg", 2)
+
     def leaf(o):
         if o[0] == "discr" and strip_refs(o[1]) == ("arg", 1):
             return vi
-        if o[0] == "index" and strip_refs(strip_to_src(o[1])) == ("arg", 2) and o[2][0] == "const" and o[2][1] == 0:
+        if o[0] == "index" and is_src(o[1]) and o[2][0] == "const" and o[2][1] == 0:
             return ev.f
+        if o[0] == "cindex" and is_src(o[1]) and o[2] == 0 and not o[3]:
+            if ev.L < 1:
+                raise tabeval.Panic("slice pattern on an empty buffer")
+            return ev.f
+        # length of the buffer seen as a slice: `Len` / `PtrMetadata` of (a deref of) src
+        if o[0] in ("len", "ptr_metadata") and is_src(o[1]):
+            return ev.L
+        if o[0] == "un" and o[1] in ("PtrMetadata", "Len") and is_src(o[2]):
+            return ev.L
         return None
     ev = tabeval.Evaluator(leaf, call)
     bad = {"value": None, "whole-frame-buffered": None, "range": None, "progress": None, "incomplete-is-none": None, "deterministic": None}
@@ -183,6 +202,7 @@ def contract(ctx, rep, b, rows, vi, vn, hi):
                 bad["incomplete-is-none"] = bad["incomplete-is-none"] or "%s: an incomplete valid frame must be `Ok(None)` (found %s)" % (wit, r[1])
         if undecided:
             break
+    contract.last_ok = False
     if undecided:
         rep.fail("R4.1", "%s:table" % vn, "Mode::%s: decode_length's decision table could not be evaluated (%s)" % (vn, undecided), b.loc())
         return
@@ -191,6 +211,7 @@ def contract(ctx, rep, b, rows, vi, vn, hi):
               sample={"mode": vn, "evaluated": n_eval, "domain": "256 first bytes x buffer lengths around every boundary"})
     rep.check("R4.1", "%s:whole-frame-buffered" % vn, bad["whole-frame-buffered"] is None,
               "Mode::%s: `Some(n)` must imply that n bytes are buffered: %s" % (vn, bad["whole-frame-buffered"]), b.loc(), sample={"mode": vn, "evaluated": n_eval})
+    contract.last_ok = bad["value"] is None and bad["range"] is None
     rep.check("R4.1", "%s:progress" % vn, bad["progress"] is None and bad["deterministic"] is None and bad["incomplete-is-none"] is None,
               "Mode::%s: %s" % (vn, bad["progress"] or bad["deterministic"] or bad["incomplete-is-none"]), b.loc(), sample={"mode": vn, "evaluated": n_eval})
 
